@@ -15,6 +15,8 @@ Record rsite := mk_rsite { r_file : string; r_func : string; r_ord : Z; r_vals :
 Record fsite := mk_fsite { f_file : string; f_func : string; f_kind : string; f_ord : Z; f_guards : guards; f_line : Z }.
 Record dsite := mk_dsite { d_file : string; d_func : string; d_kind : string; d_params : list string; d_line : Z }.
 
+Inductive bnd := BNone | BZ (z : Z) | BF (m e : Z) | BOther (txt : string).
+
 (* ---- post-evaluation regions -------------------------------------------------------------------- *)
 Inductive gclass := GExitInfoSet | GOtherExitInfoSet | GHasSamples | GHasNaN | GOpaque.
 Inductive region :=
